@@ -87,10 +87,17 @@ async fn handle_connection(
             // handler set its own; no response query buffer either way.
             let echo = crate::message::response_echo_query(&resp, view.query);
             if let Some(dur) = write_timeout {
-                timeout(dur, write_view_response(&mut writer, &resp, echo))
-                    .await
-                    .ok();
-                timeout(dur, writer.flush()).await.ok();
+                // A failed or timed-out write may have put part of a frame on the
+                // wire. Nothing may follow it, so the connection ends here, the
+                // same way an expired read timeout ends it above.
+                match timeout(dur, write_view_response(&mut writer, &resp, echo)).await {
+                    Ok(r) => r?,
+                    Err(_) => return Ok(()),
+                }
+                match timeout(dur, writer.flush()).await {
+                    Ok(r) => r?,
+                    Err(_) => return Ok(()),
+                }
             } else {
                 write_view_response(&mut writer, &resp, echo).await?;
                 writer.flush().await?;
